@@ -61,8 +61,12 @@ META = {
         "ASCII separator, whole buffer at eof, join of all chunks), never to a single read/decompress chunk; the eof flag is "
         "set only when a read returned b'' (a computed flag must be an emptiness test of the read result); every chunk read is "
         "appended or handed on whole; a loop over readline() ends on the eof flag, never on an empty line (readline returns '' "
-        "for a blank line too); decompress(data, max_length) requires unconsumed_tail to be read again. "
-        "R5: header constants and their dispatch, [11:] offsets of project name/version (through helpers), the v1 "
+        "for a blank line too); decompress(data, max_length) requires unconsumed_tail to be read again; a cached search offset "
+        "(buffer.find(sep, START)) is 0 again before the next search/return once the front of the buffer was cut or the buffer "
+        "emptied, and is advanced to len(buffer) only after a failed search and before anything is appended. "
+        "R5: header constants and their dispatch, [11:] offsets of project name/version (through helpers), how a v1 line becomes "
+        "three fields (canonical form of rstrip/strip + split(sep, maxsplit) + optional [:n]: Sphinx keeps the rest of the line "
+        "as the location; field-count and blank-line skips before the unpacking are accepted), the v1 "
         "type/location templates and duplicate semantics (symbolic evaluation of both v1 loop bodies; a first-wins guard in v1 "
         "is reported), the substring/separator, type-equality and location-suffix constants of the v2 loader, the entry-line "
         "boundary set (str.splitlines) for v1 and v2, and the '-' sentinel of to_sphinx / from_sphinx / Sphinx's v1 loader "
@@ -1706,14 +1710,52 @@ def _kind_seeds(corpus: Corpus, fi: FunctionInfo, extra: dict[str, object]) -> d
     return seeds
 
 
+def _v1_split_source(fi: FunctionInfo, v):
+    """(split call, fields variable or None, slice or None) for the value unpacked into the three v1 fields:
+    ``<line>.split(...)``, ``fields`` / ``fields[:3]`` with ``fields = <line>.split(...)``, or ``<..>.split(...)[:3]``."""
+    sl = None
+    if isinstance(v, ast.Subscript) and isinstance(v.slice, ast.Slice):
+        sl, v = v.slice, v.value
+    var = None
+    if isinstance(v, ast.Name):
+        defs = [d for d in fi.local_nodes() if isinstance(d, ast.Assign) and any(_is_name(t, v.id) for t in d.targets)]
+        if len(defs) != 1:
+            return None
+        var, v = v.id, defs[0].value
+    if isinstance(v, ast.Call) and isinstance(v.func, ast.Attribute) and v.func.attr == "split":
+        return v, var, sl
+    return None
+
+
 def _v1_unpack(fi: FunctionInfo):
-    """``name, objtype, location = <line>.split(None, 2)`` of a v1 loader."""
+    """The statement that unpacks a v1 line into (name, objtype, location)."""
     for st in fi.local_nodes():
         if isinstance(st, ast.Assign) and isinstance(st.targets[0], ast.Tuple) and len(st.targets[0].elts) == 3 and all(isinstance(e, ast.Name) for e in st.targets[0].elts):
-            v = st.value
-            if isinstance(v, ast.Call) and isinstance(v.func, ast.Attribute) and v.func.attr == "split":
+            if _v1_split_source(fi, st.value) is not None:
                 return st
     raise Unsupported(f"{fi.fq}: `name, type, location = line.split(None, 2)` not found")
+
+
+def _v1_split_chain(fi: FunctionInfo, un: ast.Assign):
+    """(base expr, canonical chain) of how a v1 line becomes three fields: method calls on the line, the split
+    written as ("split", (sep, maxsplit)), and a trailing ("[:n]", ...) when only the first n words are taken."""
+    call, var, sl = _v1_split_source(fi, un.value)
+    base, chain = _method_chain(call)
+    sep = arg_or_kw(call, 0, "sep")
+    ms = arg_or_kw(call, 1, "maxsplit")
+    sep_t = "None" if sep is None or _is_none(sep) else unparse(sep)
+    ms_v = -1 if ms is None else _const(ms)
+    if ms_v is _NOCONST:
+        raise Unsupported(f"{fi.fq}: maxsplit of the v1 split is not a constant")
+    pre = chain[:-1]
+    if sep_t == "None":  # split(None, ...) ignores leading white space: strip() == rstrip(), lstrip() is a no-op
+        pre = [("rstrip", a) if m == "strip" and not a else (m, a) for m, a in pre if not (m == "lstrip" and not a)]
+    chain = pre + [("split", (sep_t, str(ms_v)))]
+    if sl is not None:
+        if sl.lower is not None or sl.step is not None or sl.upper is None:
+            raise Unsupported(f"{fi.fq}: slice of the v1 fields not understood")
+        chain.append(("[:n]", (unparse(sl.upper),)))
+    return base, chain, var
 
 
 @rule("C18.R3")
@@ -1850,7 +1892,7 @@ class StmtBuf:
                 if isinstance(p, ast.Attribute) and p.value is n:
                     call = parent(p)
                     if isinstance(call, ast.Call) and call.func is p and p.attr in PROBE_METHODS:
-                        if p.attr == "find" and len(call.args) == 1 and _const(call.args[0]) is not _NOCONST:
+                        if p.attr == "find" and len(call.args) in (1, 2) and _const(call.args[0]) is not _NOCONST:
                             self.finds.append(_const(call.args[0]))
                         continue
                     if isinstance(call, ast.Call) and call.func is p and p.attr == "decode":
@@ -2016,6 +2058,101 @@ def _reader(corpus: Corpus) -> ReaderModel:
     return corpus.cache("c18-reader", lambda: ReaderModel(corpus))
 
 
+def _judge_find_offsets(rep: Report, M: "ReaderModel", m: FunctionInfo, b: str) -> None:
+    """``B.find(sep, START)``: START caches how much of the buffer was searched already. It is only valid while
+    the front of the buffer is unchanged: once a prefix was cut off (or the buffer reset) it must be 0 again
+    before the next search, and it may only be advanced to len(B) when the search over the whole buffer failed."""
+    rid = "C18.R4"
+    cfg = get_cfg(m)
+    inf = M.info[(m.fq, b)]
+    persistent_b = b == M.B
+    finds = []  # (stmt, call, start expr)
+    for st in inf:
+        for root in _own_exprs(st):
+            for c in ast.walk(root):
+                if isinstance(c, ast.Call) and isinstance(c.func, ast.Attribute) and c.func.attr in ("find", "index") and _is_b(c.func.value, b) and len(c.args) >= 2:
+                    finds.append((st, c, c.args[1]))
+    for st, c, start in finds:
+        if _const(start) == 0:
+            continue
+        V = unparse(start)
+        if not (isinstance(start, ast.Name) or (isinstance(start, ast.Attribute) and _is_name(start.value, "self"))):
+            raise Unsupported(f"{m.fq}: search start `{V}` of {b}.find not understood")
+        persistent_v = V.startswith("self.")
+        finders = {mm.name for mm in M.methods if any(isinstance(x, ast.Call) and isinstance(x.func, ast.Attribute) and x.func.attr in ("find", "index") and len(x.args) >= 2 and unparse(x.args[1]) == V for x in mm.local_nodes())}
+
+        def v_store(n):
+            if isinstance(n, ast.Assign) and len(n.targets) == 1 and unparse(n.targets[0]) == V:
+                return n.value
+            if isinstance(n, (ast.AugAssign, ast.AnnAssign)) and unparse(n.target) == V:
+                return n
+            return None
+
+        def searches_again(n) -> bool:
+            for root in _own_exprs(n):
+                for x in ast.walk(root):
+                    if isinstance(x, ast.Call) and isinstance(x.func, ast.Attribute):
+                        if x.func.attr in ("find", "index") and len(x.args) >= 2 and unparse(x.args[1]) == V:
+                            return True
+                        if _is_name(x.func.value, "self") and x.func.attr in finders:
+                            return True
+            return False
+
+        # (a) after the front of the buffer changed, the offset is 0 again before the next search / return
+        k = f"{m.fq}|{b}|search offset {V}|zero after the buffer is cut"
+        bad = None
+        seen = set()
+        work = [(s_, None, False) for s_ in cfg.succ.get(st, [])]
+        while work and bad is None:
+            n, z, cut = work.pop()
+            if (n, z, cut) in seen:
+                continue
+            seen.add((n, z, cut))
+            if n == RAISE:
+                continue
+            if n == EXIT:
+                if cut and z is not True and persistent_v and persistent_b:
+                    bad = "the method returns"
+                continue
+            if isinstance(n, ast.stmt):
+                if searches_again(n) and cut and z is not True:
+                    bad = f"`{short(n, 50)}` searches again"
+                    continue
+                if n is st:
+                    continue
+                s_ = inf[n].store
+                if s_ is not None and s_ != "append":
+                    cut = True
+                vs = v_store(n)
+                if vs is not None:
+                    z = _const(vs) == 0 if isinstance(vs, ast.expr) else False
+            work.extend((s2, z, cut) for s2 in cfg.succ.get(n, []))
+        if bad is None:
+            rep.ok(rid, k, m.module.site(c))
+        else:
+            rep.violation(rid, k, m.module.site(c), f"`{short(c, 50)}` starts at {V}, but after a prefix was cut off {b} (or {b} was emptied) {bad} with {V} unchanged: separators within the first {V} bytes of the remaining buffer are skipped, so a line can swallow the following lines - whether that happens depends on how the stream was split into reads")
+        # (b) the offset only advances over bytes that were searched
+        for n in inf:
+            vs = v_store(n)
+            if vs is None or (isinstance(vs, ast.expr) and _const(vs) == 0):
+                continue
+            k2 = f"{m.fq}|{b}|search offset {V}|{short(n, 50)}"
+            is_len = isinstance(vs, ast.Call) and dotted(vs.func) == "len" and len(vs.args) == 1 and _is_b(vs.args[0], b)
+            if not is_len:
+                raise Unsupported(f"{m.fq}: value stored to {V} not understood: {short(n, 50)}")
+            pos = None
+            p_ = parent(c)
+            if isinstance(p_, ast.Assign) and len(p_.targets) == 1 and isinstance(p_.targets[0], ast.Name):
+                pos = p_.targets[0].id
+            failed = pos is not None and any(a[0] == "eq" and a[3] and _is_name(a[1], pos) and unparse(a[2]) == "-1" for a in _atoms(cfg, n))
+            grown = any("append" in M.events(m, b, x) for x in _between(cfg, st, n))
+            if failed and not grown and cfg.dominates(st, n):
+                rep.ok(rid, k2, m.module.site(n), "only after the search over the whole buffer failed, before anything is appended")
+            else:
+                rep.violation(rid, k2, m.module.site(n), f"{V} is advanced to len({b}) on a path where {'bytes were appended after the search' if grown else 'the search did not fail'}: bytes that were never searched are skipped by the next {b}.find")
+    # offsets initialised elsewhere (e.g. __init__) need no judgement
+
+
 def _judge_buffer(rep: Report, M: ReaderModel, m: FunctionInfo, b: str) -> None:
     rid = "C18.R4"
     cfg = get_cfg(m)
@@ -2059,7 +2196,7 @@ def _judge_buffer(rep: Report, M: ReaderModel, m: FunctionInfo, b: str) -> None:
             for d in inf:
                 if isinstance(d, ast.Assign) and any(_is_name(t, pos) for t in d.targets):
                     v = d.value
-                    if not (isinstance(v, ast.Call) and isinstance(v.func, ast.Attribute) and v.func.attr == "find" and _is_b(v.func.value, b) and len(v.args) == 1 and _cbytes(v.args[0]) is not None):
+                    if not (isinstance(v, ast.Call) and isinstance(v.func, ast.Attribute) and v.func.attr == "find" and _is_b(v.func.value, b) and len(v.args) in (1, 2) and _cbytes(v.args[0]) is not None):
                         raise Unsupported(f"{m.fq}: `{pos}` is not only assigned from {b}.find(<bytes>)")
                     seps.add(_cbytes(v.args[0]))
                     defs.append(d)
@@ -2089,6 +2226,7 @@ def _judge_buffer(rep: Report, M: ReaderModel, m: FunctionInfo, b: str) -> None:
                 rep.violation(rid, k, site, f"the prefix {b}[:{pos}] is consumed without a dominating `{pos} != -1` test")
             else:
                 rep.ok(rid, k, site, f"prefix up to the separator consumed by `{short(p, 50)}`")
+    _judge_find_offsets(rep, M, m, b)
     # consumed bytes are discarded before the next append/use (no byte is processed twice)
     for u, i in sorted(inf.items(), key=lambda kv: kv[0].lineno):
         for what, wanted in (("whole", "reset"), ("prefix", "drop")):
@@ -2169,7 +2307,7 @@ def _bytes_provenance(e, fi: FunctionInfo, M: "ReaderModel", gens: set[str], at:
             for d in fi.local_nodes():
                 if isinstance(d, ast.Assign) and any(_is_name(t, pos) for t in d.targets):
                     v = d.value
-                    if isinstance(v, ast.Call) and isinstance(v.func, ast.Attribute) and v.func.attr == "find" and unparse(v.func.value) == b and len(v.args) == 1 and _cbytes(v.args[0]) is not None:
+                    if isinstance(v, ast.Call) and isinstance(v.func, ast.Attribute) and v.func.attr == "find" and unparse(v.func.value) == b and len(v.args) in (1, 2) and _cbytes(v.args[0]) is not None:
                         seps.append(_cbytes(v.args[0]))
                     else:
                         raise Unsupported(f"{fi.fq}: `{pos}` is not only assigned from {b}.find(<bytes>)")
@@ -2369,7 +2507,7 @@ def _judge_decompress(rep: Report, M: "ReaderModel") -> int:
 @rule("C18.R4")
 def r4_buffer_conservation(corpus: Corpus, rep: Report, tier: str):
     corpus = _view(corpus)
-    rep.rule("C18.R4", "reader buffers: stores are append / consumed-prefix drop / consumed reset; consumed bytes discarded once; no tail left at exit; decode() only at entry/stream boundaries; line loops end on the eof flag; bounded decompress keeps its tail; eof only on b''; every chunk appended or handed on")
+    rep.rule("C18.R4", "reader buffers: stores are append / consumed-prefix drop / consumed reset; consumed bytes discarded once; no tail left at exit; decode() only at entry/stream boundaries; line loops end on the eof flag; bounded decompress keeps its tail; cached search offsets reset when the buffer is cut; eof only on b''; every chunk appended or handed on")
     M = _reader(corpus)
     rid = "C18.R4"
     for m in M.methods:
@@ -2577,20 +2715,42 @@ def _sym_exec(stmts, env, conds, out, mod, sentinel, skip, A) -> None:
             raise Unsupported(f"v1 loop: statement not understood: {short(st, 60)}")
 
 
+def _is_blank_line_test(t, line: str) -> bool:
+    """``not line`` / ``not line.strip()``: a blank line is skipped."""
+    if isinstance(t, ast.UnaryOp) and isinstance(t.op, ast.Not):
+        o = t.operand
+        if _is_name(o, line):
+            return True
+        if isinstance(o, ast.Call) and isinstance(o.func, ast.Attribute) and o.func.attr in ("strip", "rstrip", "lstrip") and _is_name(o.func.value, line) and not o.args:
+            return True
+    return False
+
+
 def _v1_table(fi: FunctionInfo, sentinel: str, A):
     un = _v1_unpack(fi)
     loop = _enclosing_for(un)
     if loop is None or un not in loop.body:
         raise Unsupported(f"{fi.fq}: v1 entries are not unpacked at the top of a for loop")
-    base, chain = _method_chain(un.value)
+    base, chain, fvar = _v1_split_chain(fi, un)
     if not _is_name(base, loop.target.id if isinstance(loop.target, ast.Name) else ""):
         raise Unsupported(f"{fi.fq}: v1 entry does not derive from the loop variable")
     roles = ["NAME", "ITEMTYPE", "LOCATION"]
     env = {e.id: (("v", r),) for e, r in zip(un.targets[0].elts, roles)}
     out: dict = {}
+    # statements before the unpacking may only bind the list of fields and skip lines with too few of them
+    # (a malformed line may be skipped or fail - both are allowed)
+    idx = loop.body.index(un)
+    for pre in loop.body[:idx]:
+        if isinstance(pre, ast.Assign) and fvar is not None and len(pre.targets) == 1 and _is_name(pre.targets[0], fvar):
+            continue
+        if isinstance(pre, ast.If) and not pre.orelse and len(pre.body) == 1 and isinstance(pre.body[0], ast.Continue) and fvar is not None and unparse(pre.test).startswith(f"len({fvar})") or (isinstance(pre, ast.If) and not pre.orelse and len(pre.body) == 1 and isinstance(pre.body[0], ast.Continue) and _is_blank_line_test(pre.test, loop.target.id)):
+            continue
+        if isinstance(pre, ast.Expr) and isinstance(pre.value, ast.Constant):
+            continue
+        raise Unsupported(f"{fi.fq}: v1 loop: statement before the unpacking not understood: {short(pre, 60)}")
     A.cur_fi = fi
     try:
-        _sym_exec(list(loop.body), env, [], out, fi.module, sentinel, un, A)
+        _sym_exec(list(loop.body[idx:]), env, [], out, fi.module, sentinel, un, A)
     finally:
         A.cur_fi = None
     return chain, out, loop
@@ -2764,7 +2924,10 @@ def r5_constants(corpus: Corpus, rep: Report, tier: str):
     if mchain == schain:
         rep.ok(rid, k, A.v1.module.site(mloop), "line" + "".join(f".{a}({', '.join(b)})" for a, b in mchain))
     else:
-        rep.violation(rid, k, A.v1.module.site(mloop), f"v1 lines are taken apart with {mchain}, Sphinx {ver} uses {schain}")
+        why = ""
+        if any(a == "[:n]" for a, _ in mchain) or [b for a, b in mchain if a == "split"] != [b for a, b in schain if a == "split"]:
+            why = ": Sphinx splits off the first two fields only and keeps the rest of the line as the location; here the location is cut at its first blank (or the line fails to unpack) and whatever follows is dropped"
+        rep.violation(rid, k, A.v1.module.site(mloop), f"v1 lines are taken apart with {mchain}, Sphinx {ver} uses {schain}{why}")
     for conds in sorted(set(mtab) | set(stab), key=lambda c: sorted(map(str, c))):
         cs = " and ".join(f"{r} {'==' if p else '!='} {c!r}" for r, c, p in sorted(conds)) or "always"
         k = f"{A.v1.fq}|v1 entry where {cs}"
@@ -3036,6 +3199,47 @@ def mutants(corpus: Corpus):
             add("c18-decompress-max-length-kw-tail-dropped", "C18.R4", dc, f"{unparse(dc.func)}({a0}, max_length=65536)", "input not processed")
         else:
             out.append(("c18-decompress-max-length-tail-dropped", "no plain decompress(data) call"))
+    # class "search offset cached across a change of the buffer's front"
+    init = rd.methods.get("__init__")
+    if rl is not None and init is not None:
+        M_ = _reader(corpus)
+        B_ = M_.B
+        fcall = find_node(rl, lambda n: isinstance(n, ast.Call) and isinstance(n.func, ast.Attribute) and n.func.attr == "find" and unparse(n.func.value) == B_ and len(n.args) == 1)
+        rbcall = find_node(rl, lambda n: isinstance(n, ast.Expr) and isinstance(n.value, ast.Call) and isinstance(n.value.func, ast.Attribute) and _is_name(n.value.func.value, "self") and "append" in M_.summ.get(n.value.func.attr, set()) and n.value.func.attr != rl.name)
+        reset = find_node(rl, lambda n: isinstance(n, ast.Assign) and unparse(n.targets[0]) == B_ and _empty_bytes(n.value))
+        drop = find_node(rl, lambda n: isinstance(n, ast.Assign) and unparse(n.targets[0]) == B_ and isinstance(n.value, ast.Subscript))
+        last_init = init.node.body[-1]
+        if None not in (fcall, rbcall, reset, drop):
+            def seg(n):
+                return ast.get_source_segment(src, n)
+
+            def ind(n):
+                return " " * n.col_offset
+
+            common = [
+                (last_init, f"{seg(last_init)}\n{ind(last_init)}self._scanned = 0"),
+                (fcall, f"{unparse(fcall.func)}({seg(fcall.args[0])}, self._scanned)"),
+                (reset, f"{seg(reset)}\n{ind(reset)}self._scanned = 0"),
+            ]
+            add2("c18-search-offset-not-reset-after-cut", "C18.R4", common + [(rbcall, f"self._scanned = len({B_})\n{ind(rbcall)}{seg(rbcall)}")], "zero after the buffer is cut")
+            add2("c18-search-offset-never-reset", "C18.R4", common[:2] + [(rbcall, f"self._scanned = len({B_})\n{ind(rbcall)}{seg(rbcall)}")], "zero after the buffer is cut")
+            add2("c18-search-offset-advanced-after-read", "C18.R4", common + [(drop, f"{seg(drop)}\n{ind(drop)}self._scanned = 0"), (rbcall, f"{seg(rbcall)}\n{ind(rbcall)}self._scanned = len({B_})")], "bytes were appended after the search")
+        else:
+            out.append(("c18-search-offset-not-reset-after-cut", "readline no longer has the find / read / reset / drop statements"))
+    # class "v1 location cut at its first blank"
+    try:
+        un1 = _v1_unpack(v1)
+    except Unsupported:
+        un1 = None
+    if un1 is not None and isinstance(un1.value, ast.Call):
+        recv = ast.get_source_segment(src, un1.value.func.value)
+        tg1 = ast.get_source_segment(src, un1.targets[0])
+        ind1_ = " " * un1.col_offset
+        add("c18-v1-location-first-word", "C18.R5", un1.value, f"{recv}.split()[:3]", "v1 entry split")
+        add("c18-v1-fields-var-first-three", "C18.R5", un1, f"fields = {recv}.split()\n{ind1_}if len(fields) < 3:\n{ind1_}    continue\n{ind1_}{tg1} = fields[:3]", "v1 entry split")
+        add("c18-v1-split-not-stripped", "C18.R5", un1.value, f"{unparse(_method_chain(un1.value)[0])}.split(None, 2)", "v1 entry split")
+    else:
+        out.append(("c18-v1-location-first-word", "v1 fields are not unpacked directly from a split call"))
     if rl is not None:
         eof_t = find_node(rl, lambda n: isinstance(n, ast.If) and unparse(n.test) == _reader(corpus).E)
         add("c18-readline-decodes-partial-buffer", "C18.R4", eof_t.test if eof_t else None, f"{_reader(corpus).E} or len({_reader(corpus).B}) >= _BUFSIZE", "is not known to be set")
